@@ -12,8 +12,9 @@ import (
 )
 
 type Ctx struct {
-	Tier string
-	Seed int64
+	Tier  string
+	Seed  int64
+	Extra string // path of the JSON file with this run's random schemas ("" if none)
 	S    *Scratch
 	R    *Result
 }
@@ -122,6 +123,7 @@ func runCheck(id, tier string, seed int64) int {
 		return r.Finish()
 	}
 	c.S = s
+	c.Extra = extra
 	func() {
 		defer func() {
 			if p := recover(); p != nil {
